@@ -49,14 +49,17 @@ def model_markov(tier):
     """repeated and abandoned episodes on one environment with a Markovian transmitter: episodes of a requested length
     starting at a drawn position, followed by further episodes that step through the earlier starting point"""
     n = 4
-    cs = candidates(n)
+    cs = [cand(G[k], "q", "A", 100 + 4 * k, 102 + 4 * k) for k in range(n)]
+    cs += [cand(G[2], "q", "A", 92, 97), cand(G[1] + L, "q", "A", 111, 111), cand(G[2] + L + 1, "x")]
+    if tier != "quick":
+        cs = candidates(n)
     defs = {
         "Grid": list(G[:n]), "Cand": cs, "Mandatory": set(range(1, n + 1)), "Lats": {0, L},
         "Folds": tlagen.Raw("{<<0, 2000000000>>}"), "Modes": tlagen.Raw("{[markov |-> TRUE, warmup |-> -1]}"),
         "Delays": {0}, "EpLens": {0}, "ResetLens": {0, 2}, "Spaces": {"box"}, "Bads": tlagen.Raw('{[at |-> 0, cls |-> "ok"]}'),
         "Cuts": set(G[1: n - 1]),
     }
-    plain = {"DayLen": DAY, "MaxOpt": 1, "MaxCalls": 5 if tier == "quick" else 6, "ResetAnywhere": True, "ClockRule": "after_newdate",
+    plain = {"DayLen": DAY, "MaxOpt": 1, "MaxCalls": 4 if tier == "quick" else 5, "ResetAnywhere": True, "ClockRule": "after_newdate",
              "HistoryOrder": "by_time", "NullRule": "in_space"}
     inv = ["PrefixEqual", "NextExecCut"]
     return tlagen.mc_module("MC", "NoLookahead", defs), tlagen.cfg(defs, plain, invariants=inv), inv, plain["MaxCalls"]
@@ -144,6 +147,8 @@ def replay_chunk(ctx, texts):
         s = tlaval.parse_state(text)
         if s["ncallsA"] != ctx["maxcalls"]:
             continue
+        if ctx.get("min_resets") and sum(1 for r in s["histA"] if r["call"] == "reset" and r["out"] == "ok") < ctx["min_resets"]:
+            continue                       # single-episode histories are those of the base model
         cfgA, cfgB, cut = dict(s["cfgA"]), dict(s["cfgB"]), s["cut"]
         cfgA["tick"] = cfgB["tick"] = ctx.get("tick", 1)
         # every other pair: the Transmitter first served another environment configured with a different latency
@@ -215,7 +220,7 @@ def c02(tier, seed):
     explore.explore_and_replay(rep, "pairs", module, cfg, ("harness.nolook_check", "replay_chunk"), {"maxcalls": n},
                                set(CLAUSE_PROPS), inv, [], chunk=100)
     module, cfg, inv, n = model_markov(tier)
-    explore.explore_and_replay(rep, "pairs-markov-episodes", module, cfg, ("harness.nolook_check", "replay_chunk"), {"maxcalls": n},
+    explore.explore_and_replay(rep, "pairs-markov-episodes", module, cfg, ("harness.nolook_check", "replay_chunk"), {"maxcalls": n, "min_resets": 2},
                                set(CLAUSE_PROPS), inv, [], chunk=100)
     module, cfg, inv, n, tick = model_subsecond(tier)
     explore.explore_and_replay(rep, "pairs-subsecond", module, cfg, ("harness.nolook_check", "replay_chunk"),
